@@ -947,6 +947,135 @@ fn part_c(ctx: &Ctx, deadline: Instant, out: &mut Outcome) -> (u64, u64, String,
 
 // ------------------------------------------------------------------------------------------------
 
+// ---------------------------------------------------------------------------------------------------------
+// Part D: a late disposition for a delivery of a link that has been closed since.  Link "a" sends delivery 0
+// (left without an outcome) and is closed / dropped; link "b" attaches (the handle number is free again) and sends
+// delivery 1 - every link numbers its delivery-tags from zero.  A disposition that names delivery-id 0 is
+// about link a's delivery: b's send must not complete with it.  Then delivery 1 gets its own outcome.
+
+#[derive(Debug, Clone, Copy, PartialEq, Eq, Hash, Serialize, Deserialize)]
+pub enum Gone {
+    Close,
+    Detach,
+    Drop,
+}
+
+pub async fn stale_disposition_scenario(gone: Gone, stale_rejected: bool) -> (Vec<(String, String)>, Vec<String>, Option<String>) {
+    let mut fails = vec![];
+    let mut auto = Auto::default();
+    auto.accept_transfers = false;
+    auto.grant_credit = Some(10);
+    let mut c = match scen::open_client(auto, 4096).await {
+        Ok(c) => c,
+        Err(e) => return (fails, vec![], Some(e)),
+    };
+    let mut session = match scen::begin(&mut c, Session::builder()).await {
+        Ok(s) => s,
+        Err(e) => return (fails, vec![], Some(e)),
+    };
+    let attach = |name: &'static str| Sender::builder().name(name).target("q").sender_settle_mode(SenderSettleMode::Unsettled);
+    let mut a = match drive(&mut c.peer, attach("a").attach(&mut session), scen::H).await {
+        Some(Ok(s)) => s,
+        _ => return (fails, vec![], Some("part D: attach a failed".into())),
+    };
+    settle(&mut c.peer, 2).await;
+    let fut0 = match drive(&mut c.peer, a.send_batchable("m0"), scen::H).await {
+        Some(Ok(f)) => f,
+        other => return (fails, vlib::peer::trace_to_strings(&c.peer.trace), Some(format!("part D: send_batchable on a: {:?}", other.map(|r| r.map(|_| ()).map_err(|e| e.to_string()))))),
+    };
+    settle(&mut c.peer, 2).await;
+    let mut kept = None;
+    match gone {
+        Gone::Close => {
+            let _ = drive(&mut c.peer, a.close(), scen::H).await;
+        }
+        Gone::Detach => {
+            kept = drive(&mut c.peer, a.detach(), scen::H).await.and_then(|r| r.ok());
+        }
+        Gone::Drop => drop(a),
+    }
+    settle(&mut c.peer, 3).await;
+    let mut b = match drive(&mut c.peer, attach("b").attach(&mut session), scen::H).await {
+        Some(Ok(s)) => s,
+        _ => return (fails, vlib::peer::trace_to_strings(&c.peer.trace), Some("part D: attach b failed".into())),
+    };
+    settle(&mut c.peer, 2).await;
+    let task = tokio::spawn(async move {
+        let r = b.send("m1").await.map(|o| format!("{o:?}")).map_err(|e| e.to_string());
+        (b, r)
+    });
+    settle(&mut c.peer, 3).await;
+    // which ids went on the wire?
+    let ids: Vec<u32> = c
+        .peer
+        .trace
+        .iter()
+        .filter_map(|w| match (&w.body, w.dir) {
+            (Body::Perf(Performative::Transfer(t)), Dirn::FromLib) => t.delivery_id,
+            _ => None,
+        })
+        .collect();
+    if ids != vec![0, 1] {
+        return (fails, vlib::peer::trace_to_strings(&c.peer.trace), Some(format!("part D: expected deliveries 0 and 1 on the wire, saw {:?}", ids)));
+    }
+    if task.is_finished() {
+        return (fails, vlib::peer::trace_to_strings(&c.peer.trace), Some("part D: the send on b completed without any disposition".into()));
+    }
+    let stale_state = if stale_rejected { DeliveryState::Rejected(Rejected { error: None }) } else { DeliveryState::Released(Released {}) };
+    c.peer.send(0, Performative::Disposition(Disposition { role: Role::Receiver, first: 0, last: None, settled: true, state: Some(stale_state.clone()), batchable: false }));
+    settle(&mut c.peer, 3).await;
+    if task.is_finished() {
+        let (_b, r) = task.await.expect("send task");
+        fails.push((
+            "outcome-of-another-delivery (late disposition for a closed link's delivery)".to_string(),
+            format!(
+                "link a sent delivery 0 and was {:?}; link b sent delivery 1; the peer's disposition(first=0, settled, {:?}) made b's send of delivery 1 complete with {:?}",
+                gone, stale_state, r
+            ),
+        ));
+        drop(fut0);
+        drop(kept);
+        return (fails, vlib::peer::trace_to_strings(&c.peer.trace), None);
+    }
+    c.peer.send(0, Performative::Disposition(Disposition { role: Role::Receiver, first: 1, last: None, settled: true, state: Some(DeliveryState::Accepted(Accepted {})), batchable: false }));
+    settle(&mut c.peer, 3).await;
+    if !task.is_finished() {
+        fails.push(("send-not-resolved (after a late disposition for a closed link's delivery)".to_string(), "disposition(first=1, settled, accepted) did not complete b's send of delivery 1".to_string()));
+        task.abort();
+    } else {
+        let (_b, r) = task.await.expect("send task");
+        if !r.as_ref().map(|s| s.contains("Accepted")).unwrap_or(false) {
+            fails.push(("wrong-outcome (after a late disposition for a closed link's delivery)".to_string(), format!("delivery 1 was accepted, b's send completed with {:?}", r)));
+        }
+    }
+    drop(fut0);
+    drop(kept);
+    (fails, vlib::peer::trace_to_strings(&c.peer.trace), None)
+}
+
+fn part_d(out: &mut Outcome) -> u64 {
+    let mut n = 0;
+    for gone in [Gone::Close, Gone::Detach, Gone::Drop] {
+        for rej in [true, false] {
+            let scen: Scenario<(Vec<(String, String)>, Vec<String>, Option<String>)> = Arc::new(move || Box::pin(stale_disposition_scenario(gone, rej)));
+            let ex = run_exec(vec![], &RunCfg::none(), &scen);
+            n += 1;
+            match ex.out {
+                Some((fails, trace, mach)) => {
+                    if let Some(m) = mach {
+                        out.machinery_errors.push(m);
+                    }
+                    for (s, d) in fails {
+                        out.violation(s, d, json!({"part": "D", "gone": gone, "stale_rejected": rej, "trace": trace}));
+                    }
+                }
+                None => out.machinery_errors.push(format!("part D {gone:?} died: {:?}", ex.panics)),
+            }
+        }
+    }
+    n
+}
+
 pub fn run(ctx: &Ctx) -> Outcome {
     let mut out = Outcome::new("model_checking");
     if let Some(p) = &ctx.replay {
@@ -960,6 +1089,8 @@ pub fn run(ctx: &Ctx) -> Outcome {
     part_a(ctx, t0 + budget.mul_f64(fa), &mut out, &mut tot);
     rx::part_b(ctx, t0 + budget.mul_f64(fb), &mut out, &mut tot);
     let c = part_c(ctx, t0 + budget, &mut out);
+    let d = part_d(&mut out);
+    out.set("late_disposition_after_link_reuse_cases", d);
     out.set("states", tot.states.max(1));
     out.set("transitions", tot.transitions.max(1) + c.1);
     out.set("traces_validated_against_impl", tot.executions + c.0);
